@@ -237,12 +237,12 @@ def read_template(unit):
                                 kv = parse_kv(t2[2:])
                                 it.loops[k] = {"kv": kv, "lines": []}
                                 cur = it.loops[k]["lines"]
-                            elif d2 == "edit":
-                                # //@ edit <<from>> => <<to>> [why: ...]
-                                m = re.match(r"//@\s*edit\s+<<(.*?)>>\s*=>\s*<<(.*?)>>\s*(.*)$", s2)
+                            elif d2 in ("edit", "editall"):
+                                # //@ edit <<from>> => <<to>> [why: ...]     (editall: every occurrence, at least one)
+                                m = re.match(r"//@\s*edit(all)?\s+<<(.*?)>>\s*=>\s*<<(.*?)>>\s*(.*)$", s2)
                                 if not m:
                                     raise Undecided(f"{rel}:{i+1}: bad edit directive")
-                                it.edits.append({"from": m.group(1), "to": m.group(2), "why": m.group(3), "line": i + 1})
+                                it.edits.append({"from": m.group(2), "to": m.group(3), "why": m.group(4), "line": i + 1, "all": bool(m.group(1))})
                             else:
                                 raise Undecided(f"{rel}:{i+1}: unknown item directive {d2}")
                         else:
@@ -484,26 +484,21 @@ def assemble(unit, canary=False, mutant=None, check_fp=True):
             reps.append((st, st, " " + gt + " ", dict(org_base, kind="ghost", line=g["line"], tags=[t for _, l in g["lines"] for t in parse_tags(l)])))
         all_edits = list(it.edits)
         for e in all_edits:
-            frm = e["from"].encode().decode("unicode_escape").encode() if "\\" in e["from"] else e["from"].encode()
+            frm = e["from"].encode()
             cnt = body.count(frm)
-            occ = e.get("occurrence")
-            if occ is not None and e.get("mutant"):
-                if cnt <= occ:
-                    raise Undecided(f"mutant anchor `{e['from']}` occurs {cnt} times in {it.path}")
+            if e.get("all"):
+                if cnt < 1:
+                    raise Undecided(f"lost-anchor: {it.path}: edit anchor `{e['from']}` does not occur")
                 idx = -1
-                for _ in range(occ + 1):
+                for _ in range(cnt):
                     idx = body.index(frm, idx + 1)
-                st = b0 + idx
+                    reps.append((b0 + idx, b0 + idx + len(frm), e["to"], dict(org_base, kind="edit", line=e["line"], tags=[])))
             else:
                 if cnt != 1:
-                    if e.get("mutant"):
-                        raise Undecided(f"mutant anchor `{e['from']}` occurs {cnt} times in {it.path}")
                     raise Undecided(f"lost-anchor: {it.path}: edit anchor `{e['from']}` occurs {cnt} times")
                 st = b0 + body.index(frm)
-            org = dict(org_base, kind="edit", line=e["line"], tags=[])
-            reps.append((st, st + len(frm), e["to"], org))
-            if not e.get("mutant"):
-                A.edits.append({"item": it.id, "from": e["from"], "to": e["to"], "why": e["why"]})
+                reps.append((st, st + len(frm), e["to"], dict(org_base, kind="edit", line=e["line"], tags=[])))
+            A.edits.append({"item": it.id, "from": e["from"], "to": e["to"], "why": e["why"], "occurrences": cnt})
         reps.sort(key=lambda r: (r[0], r[1]))
         for a, b in zip(reps, reps[1:]):
             if a[1] > b[0]:
